@@ -1430,6 +1430,19 @@ pub mod verif {
             self.epsilon = epsilon;
         }
 
+        /// Overrides the whole adaptation state `(m, n_discard, epsilon, epsilon_bar, h_bar, mu)` (used to drive
+        /// the dual-averaging update from states that long or pathological histories reach).
+        pub fn verif_set_adapt_state(&mut self, st: AdaptState<T>) {
+            (
+                self.m,
+                self.n_discard,
+                self.epsilon,
+                self.epsilon_bar,
+                self.h_bar,
+                self.mu,
+            ) = st;
+        }
+
         /// A copy of the chain's generator.
         pub fn verif_rng(&self) -> SmallRng {
             self.rng.clone()
